@@ -266,6 +266,16 @@ def dynamic_part(ctx):
         S.call("Circle.get_constraint_indices", lambda: ((rk.copy(), info.copy()), {}),
                lambda a, inf: U.Circle(center_x=1, center_y=1, radius=1, loc="in", data=inf).get_constraint_indices(a, inf))
         dfc = df.dropna().reset_index(drop=True)
+        # frames as they come out of a clean-up pipeline: rows dropped / sorted / filtered, so the row labels are not 0..n-1 (the labels
+        # are part of the caller's frame – snap() records the index)
+        for fname, fr in (("rows dropped", df.dropna()), ("sorted", dfc.sort_values("x", kind="stable")), ("labelled", dfc.set_index(np.arange(len(dfc)) * 3 + 5))):
+            nfr = len(fr)
+            S.call(f"get_coordinates_from_indices(dataframe, {fname})", lambda fr=fr, nfr=nfr: ((np.arange(min(3, nfr)), fr.copy()), {}),
+                   lambda i, d: U.get_coordinates_from_indices(i, d, X_axis="x", Y_axis="y", Z_axis="z", Field="f"))
+            S.call(f"Circle.get_constraint_indices(dataframe, {fname})", lambda fr=fr, nfr=nfr: ((np.arange(nfr), fr.copy()), {}),
+                   lambda a, d: U.Circle(center_x=2, center_y=2, radius=2, loc="in", data=d, X_axis="x", Y_axis="y", Field="f").get_constraint_indices(a, d))
+            S.call(f"get_constrained_sensors_indices_dataframe({fname})", lambda fr=fr: ((fr.copy(),), {}),
+                   lambda d: U.get_constrained_sensors_indices_dataframe(0, 3, 0, 3, d, X_axis="x", Y_axis="y"))
         S.call("Cylinder.get_constraint_indices", lambda: ((np.arange(len(dfc)), dfc.copy()), {}),
                lambda a, d: U.Cylinder(center_x=2, center_y=2, center_z=2, radius=2, height=2, loc="in", data=d, X_axis="x", Y_axis="y", Z_axis="z", Field="f").get_constraint_indices(a, d))
         S.call("Polygon.get_constraint_indices", lambda: ((rk.copy(), info.copy(), [(0, 0), (3, 0), (3, 3), (0, 3)]), {}),
